@@ -23,6 +23,7 @@ structure DS where
   ka   : Nat     -- µs
   wt   : Nat     -- µs
   dialT : Bool := false   -- the write timer in force was armed by DialAsyncTimeout: its closure carries ErrDialTimeout
+  virt : Bool := false    -- virtual-descriptor case: timer handles and backlog are printed and compared
 
 
 def kindOf : Option Cause → String
@@ -31,6 +32,12 @@ def kindOf : Option Cause → String
   | some .ioerr => "io"
   | some (.timeout .r) => "rt"
   | some (.timeout .w) => "wt"
+
+/-- `c.rTimer != nil`, `c.wTimer != nil`, `len(c.writeList) > 0` as the model has them -/
+def handles (virt : Bool) (s : St) : String :=
+  if !virt then "" else
+  let b (x : Bool) : String := if x then "1" else "0"
+  s!" rt={b (s.t .r).h} wt={b (s.t .w).h} bl={b (!s.closed && s.backlog)}"
 
 def tickTo (s : St) (t : Nat) : St := if t > s.now then s.withNow t else s
 
@@ -160,6 +167,8 @@ def opsOf (ds : DS) (ws : List String) (at_ : Nat) : Option (List Op) :=
   | "O" :: "tconn" :: _ => some []                     -- std http.Server: no nbio deadline before the transfer
   | "O" :: "wsup" :: _ => some [.set .r (at_ + ds.ka)]
   | "O" :: "msg" :: _ => some [.set .r (at_ + ds.ka)]
+  | "O" :: "ping" :: _ => some [.set .r (at_ + ds.ka)]   -- heartbeats renew the keep-alive like data messages
+  | "O" :: "pong" :: _ => some [.set .r (at_ + ds.ka)]
   | _ => none
 
 partial def loop (h : IO.FS.Stream) (ds : DS) : IO Unit := do
@@ -174,7 +183,7 @@ partial def loop (h : IO.FS.Stream) (ds : DS) : IO Unit := do
     let tree := (Drv.field ws "tree").getD "fixed"
     let g := if tree == "pinned" then pinned else fixed
     IO.println "ok"
-    loop h { g, s := init, ka := num ws "ka" * 1000, wt := num ws "wt" * 1000 }
+    loop h { g, s := init, ka := num ws "ka" * 1000, wt := num ws "wt" * 1000, virt := ws.contains "virt" }
   | "O" :: "req" :: _ =>
     -- HTTP exchange: OnComplete arms the write deadline (WriteTimeout), the response is written, the keep-alive
     -- read deadline is renewed; once the client holds the whole response (at2) the server's queue is empty
@@ -200,7 +209,7 @@ partial def loop (h : IO.FS.Stream) (ds : DS) : IO Unit := do
       let dialT := ds.dialT || isDial
       let (s, k1, k2) := runOp ds.g ds.s ops at_ st post
       let nm (k : String) : String := if k == "wt" && dialT then "dt" else k
-      IO.println s!"R st={nm k1} post={nm k2}"
+      IO.println s!"R st={nm k1} post={nm k2}{handles ds.virt s}"
       -- the dial closure lives as long as that timer object: until the handle is dropped on an open conn
       let dialT := if !s.closed && !(s.t .w).h then false else dialT
       loop h { ds with s, dialT }
@@ -212,7 +221,7 @@ partial def loop (h : IO.FS.Stream) (ds : DS) : IO Unit := do
     let od (d : Dir) : Bool := !s.closed && (match (s.t d).a with | some w => w + gbound ≤ s.now | none => false)
     let overdue := if od .r then "r" else if od .w then "w" else "-"
     let k1 := if k1 == "wt" && ds.dialT then "dt" else k1
-    IO.println s!"R st={k1} overdue={overdue}"
+    IO.println s!"R st={k1} overdue={overdue}{handles ds.virt s}"
     loop h { ds with s }
   | _ => IO.println "bad-op"; loop h ds
 
